@@ -125,6 +125,8 @@ def gen_tree(rng, P, depth=0, path="p", taken=None):
         c["settings"].append("args_override_self")
     if chance(rng, 0.15):
         c["settings"].append("disable_help_subcommand")
+    if depth == 0 and chance(rng, 0.15):
+        c["settings"].append("infer_subcommands")     # global: exact names and aliases still win, prefixes dispatch too
     if chance(rng, 0.1):
         c["settings"].append("disable_help_flag")
     if chance(rng, 0.3):
@@ -390,7 +392,7 @@ def _utf8(b):
 
 # =============================================================================== the reference scan
 STRICT_SETTINGS = {"args_override_self", "disable_help_subcommand", "disable_help_flag", "disable_version_flag",
-                   "propagate_version", "allow_external_subcommands"}
+                   "propagate_version", "allow_external_subcommands", "infer_subcommands"}
 STRICT_ARG_KEYS_EMPTY = ("num", "names", "delim", "term", "dmissing", "difs", "conflicts", "overrides", "requires",
                          "r_unless", "r_unless_all", "groups", "requires_if", "r_if", "r_if_all", "index", "aliases",
                          "saliases")
@@ -451,6 +453,7 @@ def scan(cmd, argv):
     i = 0
     resume = None            # remaining letters of a cluster, to be read by this level first
     fs_at_set = False        # Parser::flag_subcmd_at of the parser reading this level is Some(..)
+    infer_sub_inherited = False
     while True:
         override = override or "args_override_self" in node["settings"]
         help_sub_disabled = help_sub_disabled or "disable_help_subcommand" in node["settings"]
@@ -482,6 +485,8 @@ def scan(cmd, argv):
                     return None
                 lflags[lf] = s
         help_sub = bool(node["subs"]) and not help_sub_disabled
+        infer_sub = infer_sub_inherited or "infer_subcommands" in node["settings"]
+        infer_sub_inherited = infer_sub          # a global setting: it is propagated to the children
         positional = [a for a in node["args"] if is_pos(a)]
         occ = collections.OrderedDict()
         pos_vals = []
@@ -584,9 +589,12 @@ def scan(cmd, argv):
             if not _utf8(tok):
                 return None
             if tok in names:
+                # (an exact name or alias wins under infer_subcommands too; the chain reports the CANONICAL name)
                 nxt = names[tok]
                 sc.how.append("name" if tok == nxt["name"] else "alias")
                 break
+            if infer_sub and any(n.startswith(tok) for n in list(names) + ([b"help"] if help_sub else [])):
+                return None        # an inferred prefix (or an ambiguous one): outside the scan's reading
             if tok == b"help" and help_sub:
                 return None
             if len(pos_vals) < len(positional):
@@ -652,10 +660,14 @@ def oracle_globals(cmd, lv):
     the entries agree (same source, same raw values).  Uses only the command definition and the result."""
     node = cmd
     nodes = [cmd]
-    for ents, sub in lv[:-1]:
+    for k, (ents, sub) in enumerate(lv[:-1]):
         nx = [s for s in node["subs"] if s["name"] == sub]
         if not nx:
             break           # external subcommand: the chain of definitions ends here
+        # a word that EQUALS a defined subcommand's name can still have been taken as an external subcommand (e.g. after
+        # an argument under args_conflicts_with_subcommands): its matches hold the Id::EXTERNAL entry (empty id)
+        if any(e["id"] == b"" for e in lv[k + 1][0]) and (node.get("ext") or "allow_external_subcommands" in node["settings"]):
+            break
         node = nx[0]
         nodes.append(node)
     seen = set()
